@@ -244,8 +244,27 @@ func vpH_c15_frommap() {
 			o.Set(k, vpValueFor(k, ill))
 		}
 	}
-	if vpBool() {
+	// an additional key - unknown, or a well-typed field of some kind of step in
+	// any of its spellings - never changes the decision
+	switch vpInt(0, 9) {
+	case 1:
 		o.Set("zzz", "extra")
+	case 2:
+		o.Set("cache", true)
+	case 3:
+		o.Set("cache", false)
+	case 4:
+		o.Set("cache", "p")
+	case 5:
+		o.Set("cache", ordered.MapFromItems(ordered.TupleSA{Key: "paths", Value: []any{"p"}}))
+	case 6:
+		o.Set("matrix", []any{"m"})
+	case 7:
+		o.Set("env", ordered.MapFromItems(ordered.TupleSA{Key: "A", Value: "b"}))
+	case 8:
+		o.Set("label", "l")
+	case 9:
+		o.Set("key", "k")
 	}
 	has := func(k string) bool {
 		for i, kk := range vpKindKeys {
